@@ -175,6 +175,10 @@ static void function_level(void) {
         fprintf(out, "bad-op\n");
         continue;
       }
+      if (!ref_node_valid(ref_node, (REF_INT)a) || !ref_node_valid(ref_node, (REF_INT)b)) {
+        fprintf(out, "invalid-end\n"); /* harness guard: the passes only try edges of live cells */
+        continue;
+      }
       /* the trial-vertex frame of ref_split_pass */
       s = ref_node_next_global(ref_node, &global);
       if (REF_SUCCESS != s) {
@@ -235,6 +239,15 @@ static void function_level(void) {
       }
       if (!allowed) {
         fprintf(out, "not-allowed\n");
+        continue;
+      }
+      s = ref_swap_manifold(ref_grid, (REF_INT)a, (REF_INT)b, &allowed);
+      if (REF_SUCCESS != s) {
+        fprintf(out, "%s\n", h_status(s));
+        continue;
+      }
+      if (!allowed) {
+        fprintf(out, "not-manifold\n");
         continue;
       }
       s = ref_swap_node23(ref_grid, (REF_INT)a, (REF_INT)b, &node2, &node3);
